@@ -23,6 +23,7 @@ struct Medium {
     long fault_at = -1;                // index (among calls with n > 0) of the faulty call
     int fault_kind = 0;                // 0 fails: returns 0; 1 short: n-1; 2 short: 1; 3 short by 2^16 (or n/2); 4 short by 2^8 (or n/3)
     bool fault_hit = false;
+    bool silent_applied = false;       // fault kinds 30/31: the write was acknowledged in full but the medium kept something else
     // crash: number of octets the medium still accepts; -1 = unlimited
     long crash_budget = -1;
     bool crashed = false;
@@ -33,7 +34,7 @@ struct Medium {
     // re-entrant driver: before it answers the faulty call, the driver validates a second record (a mirror) through the library
     void (*nested)() = nullptr; bool in_nested = false; int nested_ran = 0;
     void reset_pattern(size_t upto = MSIZE) { size_t n = std::max(upto, dirty); if (n > MSIZE) n = MSIZE; for (size_t i = 0; i < n; i++) mem[i] = (uint8_t)(0x30 + i * 7); dirty = upto; }
-    void clear_run() { log.clear(); outside = false; calls = 0; fault_at = -1; fault_hit = false; crash_budget = -1; crashed = false; octets_written = 0; write_boundaries.clear(); nested = nullptr; in_nested = false; nested_ran = 0; }
+    void clear_run() { log.clear(); outside = false; calls = 0; fault_at = -1; fault_hit = false; silent_applied = false; crash_budget = -1; crashed = false; octets_written = 0; write_boundaries.clear(); nested = nullptr; in_nested = false; nested_ran = 0; }
 };
 inline Medium &M() { static Medium m; return m; }
 
@@ -52,6 +53,7 @@ inline size_t faulty(size_t n, bool &hit) {
         case 3: return n > 65536 ? n - 65536 : n / 2;     // short by exactly 2^16 (a count compared in 16 bits would call this complete)
         case 5: return n + 1;                              // a count larger than asked: nonsense from the driver, certainly not a complete transfer
         case 6: return (size_t)-5;                         // a negative errno squeezed through the size_t return type
+        case 30: case 31: return n;                        // acknowledged in full - but the medium keeps something else (see med_write)
         default: return n > 256 ? n - 256 : n / 3;
         }
     }
@@ -81,6 +83,15 @@ inline size_t med_write(uint32_t addr, const void *src, size_t n) {
         m.crash_budget = 0; m.crashed = true;
         longjmp(m.crash_jb, 1);
     }
+    if (hit && m.fault_kind == 30) {
+        // a worn cell: one bit of the block does not take the new value
+        memcpy(m.mem + addr, src, k);
+        for (size_t i = 0; i < k; i++) if (m.mem[addr + i]) { m.mem[addr + i] &= (uint8_t)(m.mem[addr + i] - 1); m.silent_applied = true; break; }
+        if (!m.silent_applied && k) { m.mem[addr] |= 1; m.silent_applied = true; }
+    } else if (hit && m.fault_kind == 31) {
+        // a supply dip: only the first half of the block is programmed, the rest keeps what it held; the driver notices nothing
+        memcpy(m.mem + addr, src, k / 2); m.silent_applied = true;
+    } else
     memcpy(m.mem + addr, src, k);
     if (m.crash_budget >= 0) m.crash_budget -= (long)k;
     m.octets_written += k;
